@@ -10,6 +10,7 @@ import (
 	"crypto/sha256"
 	"fmt"
 	"sort"
+	"strings"
 
 	"github.com/bits-and-blooms/bitset"
 	"github.com/gordian-engine/gordian/gcrypto"
@@ -21,17 +22,18 @@ type monitors struct {
 	cs *caseState
 	w  *world
 
-	havePos         bool
-	lastVH          uint64
-	lastVR          uint32
-	lastCH          uint64
-	lastCR          uint32
-	judgedCommits   int
-	sigsVerified    int
-	summariesJudged int
-	multiTarget     int
-	setChecks       int
-	setChanges      int
+	havePos            bool
+	lastVH             uint64
+	lastVR             uint32
+	lastCH             uint64
+	lastCR             uint32
+	judgedCommits      int
+	judgedShownQuorums int
+	sigsVerified       int
+	summariesJudged    int
+	multiTarget        int
+	setChecks          int
+	setChanges         int
 
 	c11 *c11state
 }
@@ -107,6 +109,35 @@ func (mo *monitors) judgeCommit(ev commitEvent) {
 		mo.cs.violate("C01", "C01:commit-without-delivered-quorum:"+ev.source,
 			fmt.Sprintf("%s: height %d round %d hash %x committed; valid precommits ever delivered for exactly that target have power %d of %d", ev.source, ev.h, ev.round, ev.hash, dp, set.total), detail)
 	}
+}
+
+// judgeShownQuorum is the C01 oracle at the state machine's door: a view handed to the state
+// machine whose vote summary shows more than two thirds of the available power precommitted
+// to one block is the mirror telling the state machine that this block is decided (the state
+// machine asks the driver to finalize on exactly that). It must be backed by a certificate:
+// valid precommits for exactly (height, round, hash) in that same view, and ever delivered,
+// from more than two thirds of the prescribed set's power.
+func (mo *monitors) judgeShownQuorum(v *tmconsensus.VersionedRoundView, label string) {
+	vs := v.VoteSummary
+	hash := vs.MostVotedPrecommitHash
+	if hash == "" || vs.AvailablePower == 0 || !exceedsTwoThirds(vs.PrecommitBlockPower[hash], vs.AvailablePower) {
+		return
+	}
+	mo.judgedShownQuorums++
+	set := mo.w.set(v.Height)
+	var sigs []gcrypto.SparseSignature
+	if p := v.PrecommitProofs[hash]; p != nil {
+		sigs = p.AsSparse().Signatures
+	}
+	pow, nSigners, bad := mo.certPower(set, v.Height, v.Round, hash, sigs)
+	dp := mo.w.deliveredPower(voteKey{kindPrecommit, v.Height, v.Round, hash})
+	if exceedsTwoThirds(pow, set.total) && exceedsTwoThirds(dp, set.total) {
+		return
+	}
+	mo.cs.violate("C01", "C01:state-machine-shown-precommit-quorum-without-valid-certificate:"+label,
+		fmt.Sprintf("%s: view %d/%d tells the state machine that %x holds %d of %d precommit power (more than 2/3); the precommits the view itself carries for it verify for power %d of %d under the prescribed validator set, valid precommits ever delivered for exactly that target have power %d",
+			label, v.Height, v.Round, hash, vs.PrecommitBlockPower[hash], vs.AvailablePower, pow, set.total, dp),
+		map[string]any{"height": v.Height, "round": v.Round, "hash": fmt.Sprintf("%x", hash), "view_valid_power": pow, "view_valid_signers": nSigners, "view_invalid_sigs": bad, "delivered_valid_power": dp, "total_power": set.total})
 }
 
 // checkViewSigs is the C05 oracle for one view.
@@ -535,6 +566,9 @@ func (mo *monitors) afterStep() bool {
 		}
 		mo.checkViewSigs(x.v, x.label)
 		mo.checkSummary(x.v, x.label)
+		if strings.HasPrefix(x.label, "statemachine.") {
+			mo.judgeShownQuorum(x.v, x.label)
+		}
 		mo.checkValSet(x.v.ValidatorSet, x.v.Height, x.label)
 	}
 
